@@ -151,38 +151,63 @@ def replay(item):
             "signature": f"gateway {lab} [{frame[4:6].strip()}|{frame[41:45]}]" if item["label"] in labs else None}
 
 
-def schema_clause_concrete():
-    """plain executions (no solver): for every base history, a fresh gateway configured from the saved schema and
-    restored from the saved packets reports the same schema and the same packets.  -> list of (base, ok, detail)"""
+def h_schema(ctx, bname, n):
+    """a plain execution (no solver variable): the schema clause on one concrete history"""
+    r = _schema_one(bname, n)
+    ctx.check(r[1], "C16gw:restored-gateway-reports-the-same-schema-and-packets", r[2])
+    return "ok" if r[1] else "differs"
+
+
+def schema_queries(tier):
+    from symx.runner import Query
+
+    # concrete, hence cheap: prefixes as elsewhere and the whole logs
+    out = []
+    for b, n in BASES_THOROUGH:
+        for nn in (n, 10**6):
+            out.append(Query(f"gwfix-schema[{b}|{'all' if nn > 10**5 else nn}]", lambda c, a=(b, nn): h_schema(c, *a), {"h": "gwfix-schema", "base": b, "n": nn}, group="gwfix-schema", max_secs=300))
+    return out
+
+
+def replay_schema(item):
+    GV._PLAIN[0] = True
+    r = _schema_one(item["params"]["base"], item["params"]["n"], symbolic=False)
+    return {"reproduced": not r[1], "observed": f"history {r[0]}: saved schema + saved packets into a fresh gateway: {r[2]}"[:500], "signature": f"gateway schema after restore differs [{r[0]}]" if not r[1] else None}
+
+
+def _schema_one(bname, n, symbolic=True):
     import os
     from asyncio import events
 
-    out = []
-    for bname, n in BASES_THOROUGH:
-        lines = GV.load_base(bname, n)
-        if not lines:
-            continue
-        try:
-            A = GV.Runner(True)
-            for d, f in lines:
-                A.feed(d, f)
-            s1 = A.gwy.get_state()
-            B = GV.Runner(True)
-            from ramses_rf import Gateway
-            from ramses_rf.schemas import load_schema
+    lines = GV.load_base(bname, n)
+    try:
+        A = GV.Runner(symbolic)
+        for d, f in lines:
+            A.feed(d, f)
+        s1 = A.gwy.get_state()
+        B = GV.Runner(symbolic)
+        from ramses_rf import Gateway
+        from ramses_rf.schemas import load_schema
 
-            events._set_running_loop(B.loop)
-            try:
-                B.gwy = Gateway(None, input_file=open(os.devnull), loop=B.loop, config={"disable_discovery": True, "enforce_known_list": False}, **s1[0])
-                load_schema(B.gwy, known_list=B.gwy._include, **B.gwy._schema)
-            finally:
-                events._set_running_loop(None)
-            B.gwy._transport = B.tx
-            B.tx.now = A.tx.now
-            _run_coro(B, B.gwy._restore_cached_packets(dict(s1[1])))
-            B.spin()
-            s2 = B.gwy.get_state()
-            out.append((bname, s1[0] == s2[0] and s1[1] == s2[1], f"{len(s1[1])} packets"))
-        except Exception as e:  # noqa: BLE001
-            out.append((bname, False, f"{type(e).__name__}: {str(e)[:100]}"))
-    return out
+        events._set_running_loop(B.loop)
+        try:
+            B.gwy = Gateway(None, input_file=open(os.devnull), loop=B.loop, config={"disable_discovery": True, "enforce_known_list": False}, **s1[0])
+            load_schema(B.gwy, known_list=B.gwy._include, **B.gwy._schema)
+        finally:
+            events._set_running_loop(None)
+        B.gwy._transport = B.tx
+        B.tx.now = A.tx.now
+        _run_coro(B, B.gwy._restore_cached_packets(dict(s1[1])))
+        B.spin()
+        s2 = B.gwy.get_state()
+        ok = s1[0] == s2[0] and s1[1] == s2[1]
+        detail = f"{len(s1[1])} packets" if ok else f"schema equal: {s1[0] == s2[0]} (orphans {s1[0].get('orphans_heat')}/{s1[0].get('orphans_hvac')} vs {s2[0].get('orphans_heat')}/{s2[0].get('orphans_hvac')}), packets equal: {s1[1] == s2[1]}"
+        return (bname, ok, detail)
+    except Exception as e:  # noqa: BLE001
+        return (bname, False, f"{type(e).__name__}: {str(e)[:100]}")
+
+
+def schema_clause_concrete():
+    """plain executions (no solver): for every base history, a fresh gateway configured from the saved schema and
+    restored from the saved packets reports the same schema and the same packets.  -> list of (base, ok, detail)"""
+    return [_schema_one(b, n) for b, n in BASES_THOROUGH]
